@@ -156,6 +156,27 @@ def run_stream(workdir, header, case_lines, proj, oracles, sr, tag, spec_fields=
         if len(sr.samples) < 3 and new:
             sr.samples.append({"case": cl[:600], "impl": il[:400]})
 
+def confirm_timeouts(header, sr, limit=6):
+    """A lone timeout of the implementation (10 s wall clock in the host) can be an artefact of an overloaded
+    machine: such cases are run once more, alone, before they count as 'the implementation does not return'."""
+    keep, rerun = [], 0
+    for d in sr.disagree:
+        cl, il, ml, why = d[0], d[1], d[2], d[3]
+        if why.startswith("one side terminates") and il.split(" ", 3)[2] == "timeout" and rerun < limit:
+            rerun += 1
+            try:
+                il2, ml2 = run_single(header, cl)
+            except Exception:
+                keep.append(d)
+                continue
+            if not inconclusive(il2.split(" ", 3)[2]):
+                sr.inconclusive += 1
+                sr.stats["timeouts_not_reproduced"] = sr.stats.get("timeouts_not_reproduced", 0) + 1
+                continue
+        keep.append(d)
+    sr.disagree = keep
+
+
 # ---------------------------------------------------------------- shrinking
 
 
